@@ -37,6 +37,8 @@ class Gen:
         self.has_brace_text = False
         self.malformed_rad = False
         self.k = 0
+        self.second = ctx.params.get("second")      # thorough tier: level-2 kind fixed per part
+        self.flag_budget = ctx.params.get("run_flag_budget")   # runs whose m:rPr presence is a choice
 
     def nm(self, s):
         self.k += 1
@@ -54,8 +56,9 @@ class Gen:
         if "{" in t or "}" in t:
             self.has_brace_text = True
         r = ET.SubElement(parent, M + "r")
-        if ctx.flag(self.nm("rPr")):
-            ET.SubElement(r, M + "rPr")
+        if self.flag_budget is None or len(self.runs) < self.flag_budget:
+            if ctx.flag(self.nm("rPr")):
+                ET.SubElement(r, M + "rPr")
         te = ET.SubElement(r, M + "t")
         te.text = t if t != "" or ctx.flag(self.nm("empty_as_text")) else None
         self.runs.append((tok, t))
@@ -64,6 +67,8 @@ class Gen:
     def node(self, parent, depth, kinds=None, simple=False, leaf_texts=None):
         ctx = self.ctx
         kinds = kinds or (SIMPLE_KINDS if simple else KINDS)
+        if simple and self.second and depth == self.ctx.params.get("depth", 2) - 1:
+            kinds = [self.second]
         if depth <= 0:
             return self.run(parent, (leaf_texts or ["Q"]) if simple else None)
         kind = kinds[ctx.choice(self.nm("kind"), len(kinds))]
@@ -129,7 +134,10 @@ class Gen:
             n_e = ctx.choice(self.nm("d_n_e"), 3)
         # one operand slot (the focus) ranges over the full child alphabet, the others hold a
         # plain token run: keeps every feature reachable without the full product
-        focus = None if simple else SLOTS[kind][ctx.choice(self.nm("focus"), len(SLOTS[kind]))]
+        # (in the simple alphabet every slot is filled; with sub-trees of depth >= 2 below it - thorough
+        # tier - again only a chosen focus slot carries one, or the product explodes)
+        all_slots = simple and depth <= 1
+        focus = None if all_slots else SLOTS[kind][ctx.choice(self.nm("focus"), len(SLOTS[kind]))]
         for slot in SLOTS[kind]:
             reps = n_e if (kind == "d" and slot == "e") else 1
             for rep in range(reps):
@@ -137,12 +145,13 @@ class Gen:
                     desc["ops"].setdefault(slot, None)
                     continue
                 s = ET.SubElement(el, M + slot)
-                if simple or (slot == focus and rep == 0):
+                if all_slots or (slot == focus and rep == 0):
                     # a radical's operand may be the documented malformed lone bracket
                     child = self.node(s, depth - 1, simple=True,
                                       leaf_texts=["Q", "("] if (kind == "rad" and slot == "e") else None)
                 else:
-                    child = self.run(s, ["Q"])
+                    # below the first level (thorough tier) the other operands may also be a closing bracket
+                    child = self.run(s, ["Q", ")"] if (simple and not all_slots) else ["Q"])
                 desc["ops"].setdefault(slot, [])
                 desc["ops"][slot].append((s, child))
                 if kind == "rad" and slot == "e" and isinstance(child, tuple) and child[0] == "r" \
@@ -403,7 +412,14 @@ def _targets():
 
 
 def _k1_parts(tier):
-    return [{"first": k, "depth": 2 if tier == "quick" else 3} for k in KINDS if k not in ("prop",)]
+    if tier == "quick":
+        return [{"first": k, "depth": 2} for k in KINDS if k not in ("prop",)]
+    parts = [{"first": "r", "depth": 3}]
+    for k in KINDS:
+        if k in ("prop", "r"):
+            continue
+        parts += [{"first": k, "depth": 3, "second": k2, "run_flag_budget": 3} for k2 in SIMPLE_KINDS]
+    return parts
 
 
 KERNELS = [
@@ -417,7 +433,9 @@ KERNELS = [
            assumptions=["trees come from real xml.etree Elements built by the harness (what the OOXML readers hand over)",
                         "structural template oracle is compositional: operands are rendered by the converter itself; "
                         "skipped for trees containing a documented malformed radical"],
-           outside=["trees deeper than 2 (3) levels of structure or with more than 2 operands per slot"],
+           outside=["trees deeper than 2 (3) levels of structure or with more than 2 operands per slot",
+                    "thorough tier, depth 3: below the first level one focus operand per element carries the sub-tree "
+                    "(the others hold a token run) and only the first 3 runs vary m:rPr presence"],
            timeout={"quick": 280, "thorough": 2400}),
     Kernel("K2", "symbolic element names: the converter's own tag tests partition them; balance, no duplication",
            k2_symbolic_tags, targets=_targets,
